@@ -431,9 +431,9 @@ void fileWriterMatrix(Ctx& ctx)
 
 // ------------------------------------------------------------------------------------------------
 const std::size_t memLensQuick[] = { 0, 1, 2, 4 };
-const std::size_t memLensThorough[] = { 0, 1, 2, 3, 4, 5 };
+const std::size_t memLensThorough[] = { 0, 1, 2, 3, 4, 5, 6 };
 
-std::size_t nMem(Ctx& c) { return c.thorough ? 6 : 4; }
+std::size_t nMem(Ctx& c) { return c.thorough ? 7 : 4; }
 
 void runCase(std::size_t i, Ctx& ctx)
 {
